@@ -1,4 +1,6 @@
 //! pbverif - property-based testing / fuzzing harness for Rahix/profirust (see /verif/DESIGN.md).
+pub mod dpdrv;
+pub mod dporacles;
 pub mod engine;
 pub mod fuzzdrv;
 pub mod props;
